@@ -22,15 +22,22 @@ TABLE = [
 ] + [("mtvrp", v, 3, 3) for v in ("", "O", "B", "L", "TW", "OTW", "OB", "OL", "BL", "BTW", "LTW", "OBL", "OBTW", "OLTW", "BLTW", "OBLTW")]
 
 
+SELECTION = [("flp", None, 3, 4), ("mcp", None, 2, 3), ("dpp", None, 4, 9), ("mdpp", None, 4, 9)]
+EXTRA = {"C02": SELECTION, "C03": SELECTION[:2]}
+NO_GENERATOR = {"dpp", "mdpp"}  # constructors need downloaded data: no generator rollouts (witness runs are still replayed)
+
+
 def plan(prop, tier, seed, B_quick=1):
     jobs, pairs = [], []
-    for spec, variant, nq, nt in TABLE:
+    for spec, variant, nq, nt in TABLE + EXTRA.get(prop, []):
         if spec not in EV.SPECS:
             continue
         if prop == "C02":
             # mixed finished / unfinished rows need B=2; kept small in quick (rows finish at different steps from n=2 on)
-            small = max(2, nq - 1)
+            small = max(2, nq - 1) if spec not in NO_GENERATOR else nq
             sizes = [(small, 2), (nq, 1)] if tier == "quick" else [(nq, 2), (nt, 1)]
+            if spec == "mcp":
+                sizes = [(2, 2), (3, 1)]
         else:
             sizes = [(nq, B_quick)] if tier == "quick" else [(nq, 2), (nt, 1)]
         if spec == "pdp":
@@ -38,7 +45,8 @@ def plan(prop, tier, seed, B_quick=1):
         for n, B in sizes:
             jobs.append({"id": f"{prop}:{spec}[{variant}] n={n} B={B}", "module": "vf.episodes", "func": "episode_job",
                          "params": dict(spec=spec, variant=variant, n=n, B=B, mode=prop)})
-        pairs.append((spec, variant, nq + 2))
+        if spec not in NO_GENERATOR:
+            pairs.append((spec, variant, nq + 2))
     return {
         "jobs": jobs,
         "torch_requests": CF.rollout_requests(pairs, seed),
